@@ -253,10 +253,12 @@ const FRAMES: [(&str, &str, &str); 7] = [
     ("1 0", "z", "SAMPLE-RATE: 2.0"),
 ];
 const WAVEFORMS: [&str; 3] = ["DEFWAVEFORM w4:\n    1, 1, 1, 1\n", "DEFWAVEFORM w2:\n    1, 1\n", "DEFWAVEFORM unused_wf:\n    1\n"];
-const EXTERNS: [&str; 3] = [
+const EXTERNS: [&str; 4] = [
     "PRAGMA EXTERN f1 \"(x : INTEGER)\"\n",
     "PRAGMA EXTERN f2 \"INTEGER (x : mut REAL)\"\n",
     "PRAGMA EXTERN f3 \"(x : REAL[])\"\n",
+    // no name: stored under the key `None`, never kept
+    "PRAGMA EXTERN \"(x : INTEGER)\"\n",
 ];
 const CALS: [&str; 7] = [
     "DEFCAL A 0:\n    PULSE 0 \"x\" flat(duration: 1.0, iq: 1.0)\n",
@@ -356,6 +358,9 @@ fn run(ctx: &mut Ctx) {
         format!("{}DELAY 0 0.5\nSWAP-PHASES 0 \"x\" 1 \"x\"\n", header(0x7f, 0, 0, 0)),
         // several blocks
         format!("{all}LABEL @a\nA 0\nJUMP-WHEN @a c[0]\nPULSE 0 \"y\" w2\nCALL f2 a[0] b[0]\n"),
+        // a nameless PRAGMA EXTERN (key None): never kept; the expanded program cannot be scheduled at all
+        format!("{}PULSE 0 \"x\" w4\nCALL f1 a[0]\n", header(0x7f, 7, 15, 0x7f)),
+        format!("{}PULSE 0 \"x\" w4\n", header(0x01, 1, 8, 0)),
         // recursive calibration
         "DEFCAL X 0:\n    X 0\nX 0\n".to_string(),
     ];
@@ -416,7 +421,7 @@ fn run(ctx: &mut Ctx) {
 
     // 3. seeded random: random subsets of every alphabet, bodies up to 8 lines incl. control flow and the
     //    scheduling-flavoured RF / classical generators shared with C22-C25
-    let n_random = if ctx.quick() { 4000 } else { 120_000 };
+    let n_random = if ctx.quick() { 4000 } else { 250_000 };
     let mut rng = ctx.rng(35);
     // lines that have a duration (so that the schedule is computed, not an error), given calibrations A, B, C
     const TIMED: [&str; 20] = [
@@ -446,7 +451,8 @@ fn run(ctx: &mut Ctx) {
         let cal_mask = if timed_only { (rng.below(128) as u32 & !0x48) | 0x07 } else { rng.below(128) as u32 };
         let wf_mask = if timed_only { rng.below(8) as u32 | 0x03 } else { rng.below(8) as u32 };
         let frame_mask = if timed_only && rng.chance(3, 4) { rng.below(128) as u32 | 0x0f } else { rng.below(128) as u32 };
-        let h = header(frame_mask, wf_mask, rng.below(8) as u32, cal_mask);
+        let ext_mask = rng.below(8) as u32 | if rng.chance(1, 10) { 8 } else { 0 };
+        let h = header(frame_mask, wf_mask, ext_mask, cal_mask);
         let len = rng.below(9);
         let mut body = String::new();
         let mut label = 0;
